@@ -137,6 +137,76 @@ def json_writer(data, fi, offset=0):
         json.dump({"v": data["v"] + offset}, f)
 
 
+class ConversionError(ValueError):
+    """raised by the test conversion / the picky test handler for the one payload they cannot treat"""
+
+
+class Fmt:
+    """The pickle / JSON test format as an OBJECT of a user class: its BOUND METHODS are handed to
+    FileHandler(reader=obj.read_.., writer=obj.write_..).  The property does not distinguish how a user handler is
+    built: read_args / write_args / per-call arguments must reach these methods exactly as they reach the plain
+    functions above.  Flavours (the signature besides data / file_info):
+        1: (**kwargs)     2: (offset=0)     3: (offset=0, **kwargs)
+    picky = a payload this handler cannot store: the writer raises before it opens the file."""
+
+    def __init__(self, kind, picky=None):
+        self.kind, self.picky = kind, picky
+
+    def _load(self, fi, offset):
+        return (pkl_reader if self.kind == "pkl" else json_reader)(fi, offset=offset)
+
+    def _store(self, data, fi, offset):
+        if self.picky is not None and int(data["v"]) == int(self.picky):
+            raise ConversionError(f"this handler cannot store the payload {data['v']}")
+        (pkl_writer if self.kind == "pkl" else json_writer)(data, fi, offset=offset)
+
+    @staticmethod
+    def _only_offset(kwargs):
+        if set(kwargs) - {"offset"}:
+            raise TypeError(f"unexpected keyword arguments {sorted(kwargs)}")
+        return kwargs.get("offset", 0)
+
+    def read_kw(self, fi, **kwargs):
+        return self._load(fi, self._only_offset(kwargs))
+
+    def read_off(self, fi, offset=0):
+        return self._load(fi, offset)
+
+    def read_off_kw(self, fi, offset=0, **kwargs):
+        self._only_offset(kwargs)
+        return self._load(fi, offset)
+
+    def write_kw(self, data, fi, **kwargs):
+        self._store(data, fi, self._only_offset(kwargs))
+
+    def write_off(self, data, fi, offset=0):
+        self._store(data, fi, offset)
+
+    def write_off_kw(self, data, fi, offset=0, **kwargs):
+        self._only_offset(kwargs)
+        self._store(data, fi, offset)
+
+
+READERS = {1: "read_kw", 2: "read_off", 3: "read_off_kw"}
+WRITERS = {1: "write_kw", 2: "write_off", 3: "write_off_kw"}
+# Reader flavours 1 and 2 (a bound method with exactly ONE parameter besides file_info) never got their read arguments
+# before fix C11_4 (finding F-C11-4, fixed in /repo b175c08: FileHandler.read counted a `self` that inspect.signature
+# of a bound method does not show).  The constant stays as a switch for trees without that fix.
+READER_SINGLE_EXTRA = True
+
+
+def user_handler(kind, rflav=0, wflav=0, picky=None):
+    from typhon.files import FileHandler
+    if not READER_SINGLE_EXTRA and rflav in (1, 2):
+        rflav = 3
+    if picky is not None and not wflav:
+        wflav = 3
+    obj = Fmt(kind, picky)
+    reader = getattr(obj, READERS[rflav]) if rflav else (pkl_reader if kind == "pkl" else json_reader)
+    writer = getattr(obj, WRITERS[wflav]) if wflav else (pkl_writer if kind == "pkl" else json_writer)
+    return FileHandler(reader=reader, writer=writer)
+
+
 class PostAdd:
     """post_reader(file_info, data) (a picklable callable)"""
     def __init__(self, kind, k):
@@ -147,25 +217,28 @@ class PostAdd:
 
 
 class Convert:
-    """convert(data): from the source's object kind to the destination's, adding k"""
-    def __init__(self, src, dst, k):
-        self.src, self.dst, self.k = src, dst, k
+    """convert(data): from the source's object kind to the destination's, adding k; it raises for the payload `bad`
+    (a record the user's function cannot convert)"""
+    def __init__(self, src, dst, k, bad=None):
+        self.src, self.dst, self.k, self.bad = src, dst, k, bad
 
     def __call__(self, data):
-        return mk(self.dst, val(self.src, data)[0] + self.k)
+        v = val(self.src, data)[0]
+        if self.bad is not None and v == int(self.bad):
+            raise ConversionError(f"cannot convert the payload {v}")
+        return mk(self.dst, v + self.k)
 
 
 CSV_ARGS = [({}, {}), ({"index": False}, {}), ({}, {"index_col": 0}), ({"sep": ";"}, {"sep": ";"})]
 
 
-def build_fileset(root, cfg):
-    from typhon.files import FileSet, FileHandler
+def build_fileset(root, cfg, picky=None):
+    from typhon.files import FileSet
     kind = cfg["hkind"]
     kw = {}
-    if kind == "pkl":
-        kw["handler"] = FileHandler(reader=pkl_reader, writer=pkl_writer)
-    elif kind == "json":
-        kw["handler"] = FileHandler(reader=json_reader, writer=json_writer)
+    if kind in ("pkl", "json"):
+        # a handler from two plain functions (flavour 0) or from the bound methods of a user object
+        kw["handler"] = user_handler(kind, cfg.get("rflav", 0), cfg.get("wflav", 0), picky)
     # csv / nc: the handler is chosen by FileSet from the suffix (default_handler)
     if kind in ("pkl", "json"):
         if cfg["rargs"]:
@@ -183,6 +256,8 @@ def build_fileset(root, cfg):
         kw["worker_type"] = "thread"
     if kind == "nc":
         kw["max_threads"] = 1        # the netCDF4 library is not thread safe (HDF errors, segmentation faults)
+    elif cfg.get("max_workers"):
+        kw["max_threads"] = kw["max_processes"] = int(cfg["max_workers"])
     fs = FileSet(os.path.join(root, cfg["path"]), name=cfg["name"], compress=cfg["compress"],
                  decompress=cfg["decompress"], **kw)
     return fs
@@ -310,6 +385,24 @@ def listing_paths(root):
     for dp, _, fns in os.walk(root):
         for fn in fns:
             yield "R/" + os.path.relpath(os.path.join(dp, fn), root).replace(os.sep, "/")
+
+
+def candidates(infos, op, chosen):
+    """the files a selection takes, by the harness' own reading (only used to PICK the payload a conversion fails for)"""
+    if chosen is not None:
+        return list(chosen)
+    a = from_us(op["start"]) if op.get("start") is not None else datetime.min
+    b = from_us(op["end"]) if op.get("end") is not None else datetime.max
+    out = []
+    for f in infos:
+        if not (f.times[0] < b and a <= f.times[1]):
+            continue
+        if any(str(f.attr.get(k)) not in vs for k, vs in (op.get("white") or {}).items() if k in f.attr):
+            continue
+        if any(str(f.attr.get(k)).startswith(v) for k, vs in (op.get("black") or {}).items() if k in f.attr for v in vs):
+            continue
+        out.append(f)
+    return out or list(infos)
 
 
 def obj_state(fs):
@@ -454,17 +547,49 @@ def run_case(case):
                         dcfg["derived"] = True
                         r["target_cfg"] = dict(dcfg)
                     conv = op.get("convert")
+                    seen_before = existing(root, fs, cfg)
+                    # history: a move whose conversion FAILS for one payload -- the user's convert function raises for
+                    # it, or the handler of the target cannot store it.  The payload is that of one of the files the
+                    # selection takes (picked here, among the files that exist now); resolved into r["fail"].
+                    bad_conv = bad_store = None
+                    inj = op.get("fail")
+                    if inj and conv is not None and kind in ("pkl", "json") and dcfg["hkind"] in ("pkl", "json"):
+                        cand = candidates(seen_before, op, chosen if op.get("use_files") else None)
+                        if cand:
+                            try:
+                                v0 = val(kind, fs.read(cand[inj["pick"] % len(cand)]))[0]
+                            except Exception:  # noqa
+                                v0 = None
+                            if v0 is not None:
+                                k = 0 if conv == "true" else int(conv)
+                                if inj["how"] == "convert":
+                                    bad_conv = v0
+                                    if conv == "true":
+                                        conv = 0      # a function that converts nothing but raises for that record
+                                else:
+                                    bad_store = v0 + k
+                                r["fail"] = {"how": inj["how"], "pick": inj["pick"], "convert": bad_conv, "store": bad_store}
+                                r["convert"] = conv
+                    if "fail" in r and "convert" not in r.get("fail", {}):
+                        del r["fail"]            # nothing to inject (no file, not a conversion between user handlers)
                     if conv is None:
                         cv = None if op.get("conv_none") else False
                     elif conv == "true":
                         cv = True
                     else:
-                        cv = Convert(kind, dcfg["hkind"], int(conv))
-                    seen_before = existing(root, fs, cfg)
-                    ret = fs.move(dest, convert=cv, copy=op["copy"], **kw)
-                    still = set(listing_paths(root))
-                    gone.setdefault(id(fs), []).extend(f.times[0] for f in seen_before if rel(root, f.path) not in still)
-                    if tg["kind"] == "path":
+                        cv = Convert(kind, dcfg["hkind"], int(conv), bad=bad_conv)
+                    if bad_store is not None:
+                        # the same target, through a handler that cannot store that payload
+                        pcfg = dict(dcfg)
+                        pcfg["name"] = dcfg["name"] + "p"
+                        dest = build_fileset(root, pcfg, picky=bad_store)
+                    try:
+                        ret = fs.move(dest, convert=cv, copy=op["copy"], **kw)
+                    finally:
+                        still = set(listing_paths(root))
+                        gone.setdefault(id(fs), []).extend(
+                            f.times[0] for f in seen_before if rel(root, f.path) not in still)
+                    if tg["kind"] == "path" and bad_store is None:
                         new_member = (ret, dcfg, dict(fs_init))
                 elif name == "delete":
                     kw = sel_kwargs(op)
